@@ -28,10 +28,19 @@ def gen_pipeline(ctx, label, n):
             # enumeration of all matchings small
             ns = G.legal(rng, mp, lo=10, hi=12)
             ns.update(numinst=1, pmin=1, pmax=1)
+        shared = (i % 10 == 7)
+        if shared:
+            # students ranking several projects of ONE lecturer, lecturer capacity tight, two-sided, solved with -stab
+            mp = 'spa'
+            n2 = rng.randint(3, 4)
+            n3 = rng.randint(1, 2)
+            ns = dict(mp='spa', numinst=1, twopl=True, skew=None, n1=rng.randint(3, 5), n2=n2, n3=n3, pmin=2,
+                      pmax=rng.randint(2, 3), t1=rng.choice([None, 0.3]), t2=rng.choice([None, 0.3]), lq=None, llq=None,
+                      uq=n2 + rng.randint(0, 2), luq=n3 + rng.randint(0, 2), lt=None)
         twopl = ns['twopl']
         na = 3 if mp == 'spa' else 2
-        bf = (rng.random() < 0.25 or corner) and ns['n1'] <= 4
-        stab = twopl and not bf and rng.random() < 0.5
+        bf = (rng.random() < 0.25 or corner) and ns['n1'] <= 4 and not shared
+        stab = twopl and not bf and (rng.random() < 0.5 or shared)
         pc = rng.random() < 0.3
         # max rank is unknown before generation: only default cut-offs are requested here
         names = rng.sample(lpcommon.ALL, rng.choice([0, 1, 1, 2, 3]))
@@ -137,4 +146,39 @@ class Pipeline(Relation):
         return 'generator %r seed %d then solver %r' % (inp['ns'], inp['seed'], inp['argv'])
 
 
-RELATIONS = [Pipeline()]
+class PipelineCorr(Pipeline):
+    name = 'R_pipeline'
+    kind = 'corr'
+    describe = ('the same generator -> solver runs, compared with the MODEL of the solver on the generated text: the '
+                'importer reads the same instance (all attributes and derived lists), every integer program handed to CBC '
+                'equals the model\'s (constraints as canonical multisets, objective, bounds) with the recorded answers '
+                'replayed, final status and info equal; in -bf mode the text equals the brute-force model\'s; '
+                'non-trivial = n1 >= 2')
+
+    def term(self, inp, obs):
+        if obs['gen_code'] != 0 or obs['text'] is None or obs['imp'][0] != 'ok':
+            return 'false'
+        text = obs['text']
+        s = obs['imp'][1]
+        enc = '(%s, (%s, %s, %s))' % (impl.cinstance(s), impl.cidlists(s['project_lists']),
+                                      impl.cidlists(s['lecturer_lists']), impl.cidlists(s['rank_lists']))
+        terms = ['c10_import %s %s %s (Ok %s)' % (C.cstr(text), C.cz(inp['na']), C.cbool(inp['twopl']), enc)]
+        if inp['bf']:
+            r = obs['run']['bf']
+            terms.append('c07_bf %s %s %s %s %s' % (C.cstr(text), C.cz(inp['na']), C.cbool(inp['twopl']),
+                                                    C.cbool(inp['pc']), C.cresult(r, C.cstr)))
+        else:
+            r = obs['run']
+            snaps = C.clist([recorder.csnap(e) for e in r['snaps']])
+            if r['exc']:
+                impl_r = '(Crash %s)' % C.cerr(r['exc'][0])
+            else:
+                impl_r = '(Ok (%s, %s))' % (C.cstr(r['status']), C.cstr(r['info']))
+            terms.append('c_lp %s %s %s' % (lpcommon.head(dict(inp, text=text)), snaps, impl_r))
+        return '(' + ' && '.join(terms) + ')'
+
+    def what(self, inp, obs):
+        return None
+
+
+RELATIONS = [PipelineCorr(), Pipeline()]
